@@ -79,6 +79,7 @@ def run(chk: harness.Check):
     d2_readers(chk, F)
     d3_inserts(chk, F)
     d4_lineage(chk, F)
+    d5_text_aside(chk, F)
 
 
 def d1_no_drop(chk, F):
@@ -119,6 +120,31 @@ def d1_no_drop(chk, F):
     chk.expect(ok and len(ins) >= 2, "C10.D1-no-drop", "categorize|loop", f"{f.file}:{f.line}",
                "an iteration of IngredientList::categorize can finish without inserting the quantity into a category or into `other`",
                sample=f"{f.file}:{f.line}: every iteration inserts into a category list or `other` ({len(ins)} insert sites)")
+
+
+def d5_text_aside(chk, F):
+    """A text value can never be (or be added to) a running total: in GroupedQuantity::add every store of `q` into an
+    accumulator (no_unit, known[..], unknown) lies under the `false` outcome of q.value.is_text(); text goes to `other`."""
+    from cfgq import calls_to, call_result_edges
+    fname = "cooklang::quantity::GroupedQuantity::add"
+    f = F.funcs.get(fname)
+    if f is None:
+        chk.fail("anchor-missing", fname, "", f"anchor-missing: {fname} not found")
+        return
+    K = store_blocks(f, "q")
+    acc = {b: d for b, d in K.items() if ".other" not in d}
+    chk.floor("C10.D5-text-aside", "accumulator stores", len(acc), 4, f"{f.file}:{f.line}")
+    tests = [(b, t) for b, t in calls_to(f, "QuantityValue>::is_text") + calls_to(f, "Value::is_text")
+             if any(l == "param:q" or l.startswith("param:q.") for l in arg_leaves(f, t, 0))]
+    fe = []
+    for b, t in tests:
+        fe += call_result_edges(f, b)[1]
+    for b, d in sorted(acc.items()):
+        ok = any(f.edge_dominates(e, b) for e in fe)
+        chk.expect(ok, "C10.D5-text-aside", f"GroupedQuantity::add|{d.split('(')[0][:30]}#{sorted(acc).index(b)}", f.where(b),
+                   f"`q` is stored into a running total ({d}) on a path where q.value.is_text() was not excluded: a text value becomes the "
+                   "accumulator and later numbers of that class are set aside instead of summed",
+                   sample=f"{f.where(b)}: {d} under !q.value.is_text()")
 
 
 def _witness(f, K, target):
